@@ -29,6 +29,7 @@ import Kap.Proofs.C13LexStr
 import Kap.Proofs.C13ProgImage
 import Kap.Proofs.C13ProgFuel
 import Kap.Proofs.C13DecodeTree
+import Kap.Proofs.C13Tick
 import Kap.Gen.C13Tick
 
 namespace Kap.Props.C13
@@ -293,6 +294,107 @@ theorem tick_no_unknown : Gen.tickUnknown = [] := by decide
 
 /-- one builder per node kind: the property order of a node kind is well defined -/
 theorem tick_nodes_distinct : (Gen.tickTable.map (·.1)).Nodup := by decide
+
+
+/-! ## pipeline → TICKscript: the VALUES (Kap/Model/C13Tick.lean, the Build bodies regenerated from the source) -/
+
+open Kap.C13.Tick in
+/-- statically fail closed: the `Build` body of a node kind contains nothing the extractor did not recognise -/
+def bodyKnown (typ : String) : Bool :=
+  match Gen.tickBuild.find? (fun e => e.1 == typ) with
+  | some (_, _, body) => stmtsKnown 64 body
+  | none => false
+
+/-- the node kinds whose rendering is modelled without any gap (every statement, condition and expression of their
+`Build` method was recognised): every static kind the harness generates except alert (whose inhibit loop is not
+translated: the interpreter answers "not covered" when – and only when – a node has inhibitors; measured as branch
+`tick-values-na:alert`) -/
+def valueModelled : List String :=
+  ["BarrierNode", "ChangeDetectNode", "CombineNode", "DefaultNode", "DeleteNode", "DerivativeNode", "EvalNode",
+   "FlattenNode", "FromNode", "GroupByNode", "HTTPOutNode", "HTTPPostNode", "InfluxDBOutNode", "JoinNode",
+   "KapacitorLoopbackNode", "LogNode", "QueryNode", "QueryFluxNode", "SampleNode", "ShiftNode", "StateCountNode",
+   "StateDurationNode", "StatsNode", "UnionNode", "WhereNode", "WindowNode"]
+
+theorem tick_values_no_unknown : valueModelled.all bodyKnown = true := by decide
+
+/-- … and the translation is not vacuous: each of these bodies starts with its literal `Pipe` call -/
+theorem tick_values_pipe_first : valueModelled.all (fun t =>
+    match Gen.tickBuild.find? (fun e => e.1 == t) with
+    | some (_, _, body) => (body.find? (fun s => match s with | .call _ _ _ => true | _ => false)).any
+        (fun s => match s with | .call m _ _ => m == "Pipe" | _ => false)
+    | none => false) = true := by decide
+
+/-- every link the model of the function builder emits carries its parentheses (it is built by `mkLink`) -/
+theorem tick_call_emits_function (m name : String) (vals : List Tick.Val) (ls ls' : List Link)
+    (h0 : ls.all Tick.hasParens = true) (h : Tick.applyCall m name vals ls = some ls') :
+    ls'.all Tick.hasParens = true :=
+  Tick.applyCall_hasParens m name vals ls ls' h0 h
+
+/-- `tick_render_roundtrip`, chain level: the parser reads the printed tokens of ANY rendered chain (no hypothesis on
+the lambdas and expressions inside: nodes built by pipeline/tick carry no Parens flags) back as the same links, with
+the Parens flags the grammar needs -/
+theorem tick_render_roundtrip_chain (ls : List Link) (h : ls.all Tick.hasParens = true) (rest : List Tok)
+    (hb : Bnd rest) : ∃ N, ∀ f, N ≤ f → parseLinks f (fmtLinks ls ++ rest) = .ok (Tick.canonLinks ls, rest) :=
+  Tick.reads_rendered_links ls h rest hb
+
+/-- `tick_render_roundtrip`, per value kind: a property value (string, int64, float64, bool, duration, star) that
+Literal turned into an argument comes back as THE SAME VALUE when the printed argument is read (`normArg`: the
+spelling that was printed, a negative number as unary minus – lexer_decodes_formatted; `canonArg`: parser) and
+evaluated: strings whatever quoting Format chose, negative integers / floats / durations through the unary minus,
+durations whatever unit was printed. -/
+theorem tick_render_roundtrip_value (v : Tick.Val) (a : Arg) (hs : Tick.scalar v = true)
+    (h : Tick.literal v = some a) : Tick.evalArg (Tick.canonArg (Tick.normArg a)) = some v :=
+  Tick.evalArg_literal_scalar v a hs h
+
+example : Tick.literal (.int (-3)) = some (.expr (.lit (.num (.int 10 (-3))))) ∧
+    Tick.normArg (.expr (.lit (.num (.int 10 (-3))))) = .expr (.un .neg (.lit (.num (.int 10 3)))) := ⟨rfl, rfl⟩
+
+/-- … a whole argument list of such values -/
+theorem tick_render_roundtrip_values (vals : List Tick.Val) (as : List Arg) (hs : vals.all Tick.scalar = true)
+    (h : vals.mapM Tick.literal = some as) : (Tick.canonArgs (as.map Tick.normArg)).mapM Tick.evalArg = some vals :=
+  Tick.evalArgs_literal_scalars vals as hs h
+
+/-- … a list value (groupBy dimensions: strings and the star) element by element -/
+theorem tick_render_roundtrip_list (vs : List Tick.Val) (items : List Item) (h : vs.mapM Tick.itemOf = some items)
+    (hs : vs.all (fun v => match v with | .str _ => true | .star => true | _ => false) = true) :
+    Tick.evalArg (Tick.canonArg (Tick.normArg (.list items))) = some (.ilist vs) :=
+  Tick.evalArg_literal_list vs items h hs
+
+/-- … and a lambda comes back as the tree `format_then_parse_chars` speaks about: normalised literals, the Parens
+flags the grammar needs, equal to the rendered one up to Parens flags -/
+theorem tick_render_roundtrip_lambda (e : Expr) :
+    Tick.evalArg (Tick.canonArg (Tick.normArg (.lambda e))) = some (.lambda (canonize (norm e))) ∧
+    erase (canonize (norm e)) = erase (norm e) :=
+  ⟨rfl, erase_canonize _⟩
+
+/-- ELISION. What `Func` (behind Pipe / At / Dot / DotNotEmpty) drops is exactly the zero values – the defaults a
+fresh node has – and when nothing is left the property is not emitted at all; what it keeps are the literals of the
+non-zero values in order. -/
+theorem tick_elision_only_zero (vals : List Tick.Val) (h : vals ≠ []) :
+    Tick.funcNode .skipZero vals =
+      ((vals.filter (fun v => !Tick.isZero v)).mapM Tick.literal).map (fun as => if as.isEmpty then none else some as) := by
+  cases vals with
+  | nil => exact absurd rfl h
+  | cons v rest => simp [Tick.funcNode]
+
+/-- … `FuncWithZero` (PipeZeroValueOK, DotZeroValueOK, DotNotNil: positional arguments, flapping(0.0, 0.5), fill(0))
+keeps every value -/
+theorem tick_zero_kept (vals : List Tick.Val) (h : vals ≠ []) :
+    Tick.funcNode .keepZero vals = (vals.mapM Tick.literal).map some := by
+  cases vals with
+  | nil => exact absurd rfl h
+  | cons v rest => simp [Tick.funcNode]
+
+/-- a rendered window node, end to end on the extracted Build body: zero `every` elided, the flag as a bare call -/
+theorem tick_render_window_example :
+    (match Gen.tickBuild.find? (fun e => e.1 == "WindowNode") with
+     | some (_, param, body) =>
+       (Tick.renderNode body param (.struct [.kv "Period" (.dur 10000000000), .kv "Every" (.dur 0),
+          .kv "PeriodCount" (.int 0), .kv "EveryCount" (.int 0), .kv "AlignFlag" (.bool true),
+          .kv "FillPeriodFlag" (.bool false)]) []).map (fun ls => fmtLinks ls)
+     | none => none) =
+    some [.sym .pipe, .id "window", .lp, .rp, .sym .dot, .id "period", .lp, .lit (.dur 10000000000 ""), .rp,
+          .sym .dot, .id "align", .lp, .rp] := by decide
 
 /-! ## Fuel -/
 
